@@ -378,6 +378,27 @@ func ruleS8(p *Prog, r *Report) {
 		{"DecodeStorable", "assign", func(*ssa.Function) bool { return false }, "set by the constructor only"},
 		{"DecodeTypeInfo", "assign", func(*ssa.Function) bool { return false }, "set by the constructor only"},
 	}
+	// a private helper of the storage type all of whose callers are allowed writers
+	// is part of those writers (the routine was split, its ownership was not)
+	var viaHelpers func(allowed func(*ssa.Function) bool, f *ssa.Function, depth int) bool
+	viaHelpers = func(allowed func(*ssa.Function) bool, f *ssa.Function, depth int) bool {
+		if allowed(f) {
+			return true
+		}
+		if depth > 3 || f.Object() == nil || f.Object().Exported() || recvName(f) != storageT {
+			return false
+		}
+		sites := p.CallersOf(f)
+		if len(sites) == 0 {
+			return false
+		}
+		for _, cs := range sites {
+			if !viaHelpers(allowed, TopLevel(cs.Caller), depth+1) {
+				return false
+			}
+		}
+		return true
+	}
 	n := 0
 	seenRow := map[string]bool{}
 	for _, top := range p.TopFuncs() {
@@ -407,9 +428,9 @@ func ruleS8(p *Prog, r *Report) {
 				r.Bad(R, cons, p.InstrPos(in), "storage field written from a worker goroutine")
 				return
 			}
-			r.Decide(rw.allowed(top), R, cons, p.InstrPos(in), rw.why, "writer not allowed by the ownership table ("+rw.why+")")
+			r.Decide(viaHelpers(rw.allowed, top, 0), R, cons, p.InstrPos(in), rw.why, "writer not allowed by the ownership table ("+rw.why+")")
 			// BatchPreload may replace the cache only when it is empty
-			if fw.Ref.Field == "cache" && fw.Kind == "assign" && top.Name() == "BatchPreload" {
+			if fw.Ref.Field == "cache" && fw.Kind == "assign" && viaHelpers(named("BatchPreload"), top, 0) {
 				guard := false
 				for _, b := range fn.Blocks {
 					ifi, ok := b.Instrs[len(b.Instrs)-1].(*ssa.If)
